@@ -5,7 +5,31 @@ before the final kernel extraction and the Lean model recomputes the returned ba
 qs_optimize, sparse x block and block x block products.
 Request lines: see harness/src/ops_gf2.rs and lean/Ymq/Drv/Gf2.lean.
 """
+# SIZE AUDIT (quick tier)  [measured with seed 1: per op, largest shape and the storage boundaries reached]
+# Storage facts of /repo/src/matrix/gf2.rs: kernel_gauss works on bitvec_simd::BitVec = Vec<u64x4> (256-bit items made of
+# four 64-bit lanes; leading_zeros counts whole zero items, then whole zero lanes, then corrects by nbits % 256), columns of
+# length nrows and coefficient rows of length ncols, so BOTH dimensions have boundaries at every multiple of 64 (lane) and of
+# 256 (item). Block = Vec<u64> (one word per row/column: no packing along nrows/ncols), LSIZE = 64 is the dense/sparse split of
+# qs_optimize and the minimum number of rows of kernel_lanczos; coordinates are u32 (2^32 rows/columns: not reachable).
+# relations.rs final_step selects kernel_gauss up to 5000 rows and kernel_lanczos above.
+#
+# op             quick max (rows x cols)   thorough max    supported by the code           boundaries reached by quick BEFORE this audit
+# gf2_gauss      4985 x 5050               7775 x 6200     memory only (doc: 100000)       63/64/65 both dims (>=19 each); 255/256/257 and
+#                                                                                          511/512/513 both dims (fixed list); 127/128,
+#                                                                                          191..193, 1023..1025: only by chance (129, 191 once)
+# gf2_lanczos    7764 x 7766               21647 x 21657   >= 64 rows, < 2^32, memory      rows >= 139 only (random 150..600, 1200, 2500, 5600+);
+#                                                                                          40 rows (documented panic); 64, 65 rows never;
+#                                                                                          127..129 / 255..257 rows by chance (256 hit, others not)
+# gf2_qsopt/optmul/spmul  300 x 250        300 x 250       as above                        rows 63/64/65/128/129, cols 63/64/65 (choice lists): complete
+#                                                                                          for LSIZE = 64; no index >= 2^16 in any tier (u32 coordinates)
+# gf2_blockdot   n = 1000                  1000            any n                           n in 0,1,2,3,63,64,65,200,1000: complete
+# excess ncols - nrows: gauss -985..1274 incl. 0, 1, 61..70; lanczos -20,-1,0,1,2,3,4,10,50 (64 never).
+# Added by the audit (boundary_cases, yielded first in both tiers): gauss at 127/128/129/191/192/193 in each dimension, excess
+# exactly 64, 1023/1024/1025; Lanczos with 64, 65, 127, 128, 129, 255, 256, 257 rows (excess 1 and 64), each replayed by the
+# Lean model; qsopt/optmul/spmul with row indices 65535/65536/65537/65539 and with column indices 65535/65536/65537; one 65-row
+# matrix with rank(B B^T B) >= 64 > rank((B^T B)^3) (sharp non-termination criterion, see `oracle`).
 import math
+import random
 from vlib.pipeline import Case
 
 PID = "C14"
@@ -18,12 +42,16 @@ THEOREMS = ["Ymq.C14." + t for t in (
 HYPOTHESES = []
 PROFILES = ["release", "chk"]
 TIMEOUT = 30.0
-RULE = ("matrices over GF(2): exhaustive up to 3x3, then random shapes 1x1 .. 6000+ columns (thorough: 20000) of two density profiles "
+RULE = ("boundary family first (both tiers): Gauss with 127/128/129/191/192/193 rows resp. columns (64-bit lanes of the 256-bit "
+        "storage items), excess exactly 64, 1023..1025; Lanczos with 64, 65, 127..129, 255..257 rows at excess 1 and 64, replayed by the "
+        "model; sparse products with row / column indices 65535..65539 (u32 coordinates); one 65-row matrix with rank(B B^T B) >= 64 > "
+        "rank((B^T B)^3) that must not answer; then "
+        "matrices over GF(2): exhaustive up to 3x3, then random shapes 1x1 .. 6000+ columns (thorough: 20000) of two density profiles "
         "(sieve-like: heavy low rows + sparse tail with 1/i decay, uniform: weight-w columns or density 1/2), planted coranks 0..100, "
         "duplicate and zero columns, empty matrix, zero-row matrices; Gauss answers are compared with the Lean model up to 700 columns; "
         "Lanczos is repeated over its own randomness and every returned basis is recomputed by the Lean model from (B, Y); "
         "half of the Lanczos runs at verbosity Info/Verbose (library default Info); a missing Lanczos answer is accepted only when the oracle "
-        "finds rank(B B^T B) < 64, and at least 90 % of the runs on matrices with corank 1..100 must return a vector; "
+        "finds rank((B^T B)^3) < 64 (implied by rank(B B^T B) < 64), and at least 90 % of the runs on matrices with corank 1..100 must return a vector; "
         "non-trivial = at least 2 columns; distinct by request line")
 MODELLED = [
     "matrix::gf2::kernel_gauss line by line on bit lists: leading-zero index, first minimum, the three swaps, xor of column and coefficient "
@@ -38,7 +66,8 @@ UNMODELLED = [
     "bitvec_simd::BitVec and wide::u64x4 storage (SIMD xor, leading_zeros, the raw pointer read of the first lane) are modelled as bit lists",
     "the order produced by sort_unstable_by_key in qs_optimize (only a permutation of the coordinate list; the product is proved independent of it)",
     "termination of kernel_lanczos: genblock loops forever when rank(B B^T B) < 64 (no block Y with a full-rank Gram matrix exists); one such "
-    "matrix is run on purpose (3 s limit) and a missing answer is accepted by the oracle ONLY when it computes rank(B B^T B) < 64 itself; "
+    "matrix is run on purpose (3 s limit) and a missing answer is accepted by the oracle ONLY when it computes rank((B^T B)^3) < 64 itself "
+    "(the exact condition: the Gram matrix is Y^T (B^T B)^3 Y; one 65-row matrix with rank(B B^T B) >= 64 > rank((B^T B)^3) is run as well); "
     "final_step calls kernel_lanczos only with more than 5000 rows each holding at least 2 entries, where such a rank is not reachable in practice",
 ]
 
@@ -193,6 +222,20 @@ def rank_bbtb(cols, nrows):
             acc ^= rows[i]
         a.append(acc)
     return rank_of([mat_vec(cols, v) for v in a])
+
+
+def rank_a3(cols, nrows):
+    """rank of A^3, A = B^T B, for the matrix with columns `cols`. genblock keeps drawing blocks Y until the Gram matrix of
+    B A Y, which is Y^T A^3 Y, has rank 64: such a Y exists iff rank(A^3) >= 64 (a symmetric form of rank >= 64 over GF(2) has a
+    non-degenerate subspace of dimension 64: orthonormal vectors when it is not alternating, 32 hyperbolic pairs when it is).
+    rank(A^3) <= rank(B A) = rank(B B^T B), with strict inequality possible (the dot product may be degenerate on Im(B A))."""
+    rows = [0] * nrows
+    for j, x in enumerate(cols):
+        for i in bits_of(x):
+            rows[i] |= 1 << j
+    a = [mat_vec(rows, x) for x in cols]            # column j of A (symmetric, ncols x ncols)
+    a2 = [mat_vec(a, v) for v in a]
+    return rank_of([mat_vec(a, v) for v in a2])
 
 
 def rank_cached(line, cols):
@@ -541,10 +584,73 @@ def product_cases(rng, scale, extended):
         yield Case(f"gf2_blockdot {enc_words(x)} {enc_words(y)}")
 
 
+def _fork(rng, label):
+    """own stream for the boundary family: depends on the run's seed, leaves the stream of the older families untouched"""
+    return random.Random(f"{label}:{rng.getstate()[1][:4]}")
+
+
+def boundary_cases(rng, tier):
+    """size audit: shapes at the storage boundaries that the random families reach only by chance (see SIZE AUDIT above)"""
+    # kernel_gauss: 64-bit lanes inside the first 256-bit item, as column length (nrows) and as coefficient length (ncols)
+    for n in (127, 128, 129, 191, 192, 193):
+        cols, nr = make_matrix(rng, n, n + 2, "uniform", 1)                # nrows = n, corank >= 2
+        yield gauss_case(cols, nr)
+        cols, nr = make_matrix(rng, n - 3, n, "sieve", 2, dups=1)          # ncols = n, more columns than rows
+        yield gauss_case(cols, nr)
+    # excess exactly 64 (kernel of dimension >= 64 = one full lane of coefficient rows)
+    for n in (64, 192):
+        cols, nr = make_matrix(rng, n, n + 64, "sieve", 0)
+        yield gauss_case(cols, nr)
+    # four storage items
+    for nrows, ncols in ((1023, 1025), (1024, 1024), (1025, 1023)):
+        cols, nr = make_matrix(rng, nrows, ncols, "sieve", 2)
+        yield gauss_case(cols, nr, k=False)
+    # kernel_lanczos: the smallest supported number of rows (64 = dense block only, 65 = one coordinate row) and the storage
+    # boundaries of the final stage (BitVec of nrows bits for B*Y, of ncols bits for the basis); excess 1 and 64
+    run = 1000
+    for nrows in (64, 65, 127, 128, 129, 255, 256, 257):
+        for excess, profile, corank in ((1, "sieve", 0), (64, "uniform", 3)):
+            for _ in range(60):
+                cols, nr = make_matrix(rng, nrows, nrows + excess, profile, corank)
+                if rank_a3(cols, nr) >= LS:           # genblock terminates with probability 1
+                    break
+            else:
+                continue
+            run += 1
+            yield lanczos_case(cols, nr, run, timeout=20, shuffle_rng=rng)
+    # coordinates are stored as u32: row and column indices on both sides of 2^16 (the random product cases stop at 300 x 250,
+    # the Lanczos runs at 7764 rows in quick, 21647 in thorough; 2^32 itself is out of reach)
+    sp = [[0, 63, 64, 65535, 65536, 65539], [65536], [5, 65537, 65537, 64], []]
+    m = f"65540 {len(sp)} {enc_sparse(sp)}"
+    y = [rng.getrandbits(64) for _ in sp]
+    yield Case(f"gf2_qsopt {m}")
+    yield Case(f"gf2_optmul {m} {enc_words(y)}")
+    yield Case(f"gf2_spmul {m} {enc_words(y)}")
+    ncols = 65538
+    sp = [[] for _ in range(ncols)]
+    sp[0], sp[65535], sp[65536], sp[65537] = [0, 64], [1, 64, 129], [0, 100], [64, 63]
+    y = [0] * ncols
+    for j in (0, 7, 65535, 65536, 65537):
+        y[j] = rng.getrandbits(64)
+    m = f"130 {ncols} {enc_sparse(sp)}"
+    yield Case(f"gf2_qsopt {m}")
+    yield Case(f"gf2_optmul {m} {enc_words(y)}")
+    yield Case(f"gf2_spmul {m} {enc_words(y)}")
+    # sharp non-termination criterion: rank(B B^T B) >= 64 but rank((B^T B)^3) < 64 (needs >= 65 rows): no block Y exists
+    for _ in range(400):
+        cols, nr = make_matrix(rng, 65, 65 + rng.choice([1, 3, 70]), "uniform", 0)
+        if rank_bbtb(cols, nr) >= LS and rank_a3(cols, nr) < LS:
+            c = lanczos_case(cols, nr, 0, fu=False, timeout=3)
+            c.profiles = ["release"]
+            yield c
+            break
+
+
 def cases(tier, rng, extended=False):
     scale = 1 if tier == "quick" else 6
     if extended:
         scale *= 4
+    yield from boundary_cases(_fork(rng, "C14-boundary"), tier)
     yield from gauss_cases(rng, scale, extended)
     yield from product_cases(rng, scale, extended)
     yield from lanczos_cases(rng, scale, extended)
@@ -605,7 +711,12 @@ def oracle(case, ans):
             if r3 < LS:
                 FLOOR["hang_rank_lt_64"] += 1
                 return None
-            return f"no answer within the time limit although rank(B B^T B) = {r3} >= 64"
+            # sharp form (size audit, matrices with 65 rows): the Gram matrix is Y^T A^3 Y, so a block exists iff rank(A^3) >= 64
+            ra3 = rank_a3(cols, nrows)
+            if ra3 < LS:
+                FLOOR["hang_rank_lt_64"] += 1
+                return None
+            return f"no answer within the time limit although rank(B B^T B) = {r3} and rank((B^T B)^3) = {ra3} are >= 64"
         if ans == "panic" and nrows < LS:
             return None          # documented: fewer than 64 rows index out of the dense copy (theorem optMul_few_rows)
         parts = ans.split(" ")
